@@ -91,8 +91,10 @@ func (r *validationResponseHandler) HandleValidationResponse(
 		ccRespOnce bool
 	)
 	if (err != nil || isStaleErrorAllowed(resp.StatusCode)) && req.Method == http.MethodGet {
-		ccResp = ParseCCResponseDirectives(resp.Header)
-		ccRespOnce = true
+		if resp != nil {
+			ccResp = ParseCCResponseDirectives(resp.Header)
+			ccRespOnce = true
+		}
 		if r.siep.CanStaleOnError(ctx.Freshness, ccResp) {
 			// RFC 9111 §4.2.4 Serving Stale Responses
 			// RFC 9111 §4.3.3 Handling Validation Responses (5xx errors)
